@@ -11,4 +11,5 @@ use std::str::from_utf8;
 //@ include prelude/outline.rs
 //@ include contracts/elements.rs as callee
 //@ include contracts/query_parse.rs
+//@ include contracts/query_canon.rs
 //@ include prelude/tail.rs
